@@ -19,7 +19,9 @@ SRV0 = -16777216       # 0xff000000 as 32-bit two's complement
 TEXTS = ['hello', 'a, b', 'x (y) [z]', 'wl_surface@3', 'nil', '12', 'fd 3', 'new id wl_x@4', ' -> wl_a@1.b()',
          'array', 'héllo ☃', '', 'a=b', "it's", 'tab\there', '1.5', '{q}', '<3>', 'x,y', ', ', '), ']
 CHATTER = ['\x1b[1;31mERROR\x1b[0m: no cursor theme', 'plain \x1b[0m reset', 'hello world', '', 'using wayland', '[debug] frame 12', 'wl_surface@3.commit', '[123.456] not a message',
-           '(EE) failed', 'a -> b', '[  12.345] wl_x@1.y(', 'éè unicode', 'x' * 200, '[]', '()']
+           '(EE) failed', 'a -> b', '[  12.345] wl_x@1.y(', 'éè unicode', 'x' * 200, '[]', '()',
+           # characters that str.splitlines() takes for line ends but a file does not: form feed, vertical tab, FS, NEL, U+2028
+           'page 1 of the report\x0cpage 2', 'v\x0btab', 'fs\x1cgs\x1drs\x1e.', 'nel\x85next', 'line\u2028separator\u2029.']
 GAPS = [0, 1, 7, 99, 100, 101, 500, 4999, 5000, 999999, 1000000, 1000001, 2500000, 123456]
 GAPS_DY = [0, 125000, 250000, 875000, 1000000, 1125000, 2000000]
 
@@ -177,7 +179,7 @@ class ConnGen:
             name = r.choice(['set_app_id', 'set_app_id', 'set_title', 'get_layer_surface'])
             # (application ids that look like connection names included: `connection B` means the connection called B)
             txt = r.choice(['org.gnome.gedit', 'firefox', 'com.example.App.', 'Untitled 1', '', 'a.b', 'kitty', 'weston-terminal', '.hidden', 'ALLCAPS',
-                            'b', 'B', 'A', 'c'])
+                            'b', 'B', 'A', 'c', 'Breaking news\u2028Live updates', 'form\x0cfeed'])
             if name == 'get_layer_surface':
                 args = [{'k': 'nil', 'type': ''}, {'k': 'nil', 'type': ''}, {'k': 'nil', 'type': ''}, {'k': 'int', 'v': 2}, {'k': 'str', 's': txt}]
             elif r.random() < 0.1:
@@ -333,13 +335,13 @@ CORE_IFACES = ['wl_compositor', 'wl_surface', 'wl_region', 'wl_shm', 'wl_shm_poo
 
 class SessionGen:
     def __init__(self, seed, nconn=(1, 3), nmsg=(10, 40), junk=0.1, cmds=0.0, core=True, dy=False, tags=True,
-                 matcher_depth=1, show=None, with_init_filter=0.0, unresolved=0.0, zero_start=0.15, titles=0.0):
+                 matcher_depth=1, show=None, with_init_filter=0.0, unresolved=0.0, zero_start=0.15, titles=0.0, back=0.0):
         self.r = random.Random(seed)
         d = protoextract.load()
         self.proto, self.kinds, self.amb = d['proto'], d['kinds'], set(d['amb_msgs'])
         self.opt = dict(nconn=nconn, nmsg=nmsg, junk=junk, cmds=cmds, core=core, dy=dy, tags=tags,
                         matcher_depth=matcher_depth, show=show, with_init_filter=with_init_filter, unresolved=unresolved,
-                        zero_start=zero_start, titles=titles)
+                        zero_start=zero_start, titles=titles, back=back)
 
     def session(self):
         r, o = self.r, self.opt
@@ -367,6 +369,10 @@ class SessionGen:
         for k in range(n):
             if not (zero and k == 0):
                 t += r.choice(GAPS_DY if o['dy'] else GAPS)
+                if o['back'] and r.random() < o['back']:
+                    # log times that step back (output of several threads or processes merged out of order), also to before
+                    # the first message's time: the displayed time is then negative
+                    t = max(0, t - r.choice([125000, 250000, 1000000, 1500000] if o['dy'] else [1, 400, 5000, 1000000, 1500000]))
             if t > 2100000000:
                 t = 2100000000
             if r.random() < o['junk']:
